@@ -5,6 +5,7 @@ import HtpModel.Lemmas.Consumed
 import HtpModel.Lemmas.ConsumedOut
 import HtpModel.Lemmas.BufInv
 import HtpModel.Lemmas.OutConsumed
+import HtpModel.Lemmas.Owed
 
 namespace Htp.C09
 open Htp.Conn Htp.Gen
@@ -201,5 +202,30 @@ example :
     let c : Conn := { outState := .line, out := { status := STREAM_DATA, tx := some 0 }, txs := [some { uid := 0 }] }
     (resData {} (some (b!"HTTP/1.1 2")) 10 c).2 = STREAM_DATA ∧ (resData {} (some (b!"HTTP/1.1 2")) 10 c).1.out.read = 10 ∧
     (resData {} (some (b!"HTTP/1.1 2")) 10 c).1.out.len = 10 := by decide
+
+/-- **C09 (DATA means the whole chunk was consumed), from a state invariant**: the hypothesis 'every pass finds the counted body states still
+    owing bytes' of `C09_req_call_data_means_consumed` is discharged: it is enough that they owe bytes when the call STARTS (`OwedPos`).
+    Inside the call the parser enters those states only with a positive amount and leaves them when it reaches zero (`Lemmas/Owed.lean`:
+    where each of the fourteen state functions can leave the parser, the frames for the two parser states and the two amounts). The one outside
+    fact left is `ClAtDecision`: when REQ_BODY_DETERMINE runs, the Content-Length recorded for an identity body is not negative - a
+    property of the header parser's arithmetic that is corresponded, not proved. -/
+theorem C09_req_call_data_means_consumed_inv (cfg : Cfg) (d : Bytes) (c : Conn) (hs : (d.length : Int) < 18446744073709551616)
+    (hb : inBufLen c ≤ cfg.fieldLimitHard) (h0 : OwedPos c)
+    (hcl : ClAtDecision cfg (reqWakeOther (reqStoreChunk (some d) d.length c)))
+    (hdata : (reqData cfg (some d) d.length c).2 = STREAM_DATA) :
+    (reqData cfg (some d) d.length c).1.inn.read = (reqData cfg (some d) d.length c).1.inn.len :=
+  reqData_data_consumed_inv cfg d c hs hb h0 hcl hdata
+
+/-- ... and the two hypotheses on the state are an invariant of request data calls: they hold again when htp_connp_req_data returns, whatever
+    it returns, so they are carried from call to call (calls of the response direction in between are not covered by this theorem). -/
+theorem C09_req_call_invariant (cfg : Cfg) (d : Bytes) (c : Conn) (hs : (d.length : Int) < 18446744073709551616)
+    (hb : inBufLen c ≤ cfg.fieldLimitHard) (h0 : OwedPos c)
+    (hcl : ClAtDecision cfg (reqWakeOther (reqStoreChunk (some d) d.length c))) :
+    inBufLen (reqData cfg (some d) d.length c).1 ≤ cfg.fieldLimitHard ∧ OwedPos (reqData cfg (some d) d.length c).1 :=
+  reqData_invariant cfg d c hs hb h0 hcl
+
+/-- non-vacuity: a freshly created connection satisfies both state hypotheses -/
+example : inBufLen ({} : Conn) ≤ (({} : Cfg).fieldLimitHard) ∧ OwedPos ({} : Conn) := by
+  refine ⟨by decide, ⟨fun e => ?_, fun e => ?_⟩⟩ <;> exact absurd e (by decide)
 
 end Htp.C09
